@@ -54,6 +54,7 @@ RECURSIVE Cnt(_), CntSeq(_, _), CntHandlers(_, _)
 Cnt(t) == CASE t[1] \in {"expr", "break", "return"} -> 0
             [] t[1] \in {"decl", "arr"} -> 1
             [] t[1] = "fun" -> 2
+            [] t[1] \in {"class", "enum"} -> 3
             [] t[1] = "block" -> CntSeq(t[2], 1)
             [] t[1] = "try" -> CntSeq(t[2], 1) + CntHandlers(t[3], 1)
             [] t[1] = "ifelse" -> Cnt(t[2]) + Cnt(t[3])
@@ -98,6 +99,20 @@ Visit(st, t, c) ==
                b == NlIndent(NeedNl(a), 0)
                d == Tok(Idn(Tok(Idn(Tok(Tok(parm(Tok(b, "(")), ")"), " "), "noexcept"), "("), "false"), ")")
            IN Tok(Braces(d, << <<"return">> >>, c + 2), ";")
+     \* a class definition as a declaration statement: base list, then the members one per line (each followed by a line
+     \* break and the indentation, also the last one), the closing brace on a line of its own
+     [] t[1] = "class" ->
+           LET a == Tok(Idn(Tok(Idn(Tok(Idn(st, Name(c + 3)), " : "), "class"), "("), "int"), ")")
+               b == NlIndent(Tok(Tok(a, " "), "{"), 3)
+               f == Newline(Tok(Idn(Tok(Idn(Idn(Tok(Idn(b, Name(c + 1)), " : "), "public"), "mutable"), "*"), "char"), ";"))
+               g == Newline(Tok(Idn(Tok(Raw(Tok(Idn(Tok(Idn(f, Name(c + 2)), " : #"), "bitfield"), "("), "3"), ")"), "int"), ";"))
+           IN Tok(NeedNl(Tok(NlIndent(g, -3), "}")), ";")
+     \* a scoped enumeration with two enumerators, the second initialised
+     [] t[1] = "enum" ->
+           LET a == NlIndent(Tok(Tok(Idn(Tok(Idn(st, Name(c + 3)), " : "), "enum"), " "), "{"), 3)
+               f == Newline(Tok(Idn(a, Name(c + 1)), ";"))
+               g == Newline(Tok(Tok(Raw(Tok(Idn(f, Name(c + 2)), "("), "7"), ")"), ";"))
+           IN Tok(NeedNl(Tok(NlIndent(g, -3), "}")), ";")
      [] t[1] = "block" -> Braces(st, t[2], c)
      [] t[1] = "try" -> Handlers(Braces(st, t[2], c), t[3], 1, c + CntSeq(t[2], 1))
      [] t[1] = "if" -> NeedNl(Indent(Stmt(NlIndent(Opening(st, "if"), 3), t[2], c), -3))
